@@ -83,10 +83,10 @@ def cases(ctx):
         for m in (0, 1, 0x7fffff, 0x800000, 0xffffff, rng.getrandbits(24)):
             bits = (e << 24) | m
             ctx.count('target')
-            yield Case(f'target {bits}', 'ms', nontrivial=e != 3, tag='target')
+            yield Case(f'target {bits}', 'gms', nontrivial=e != 3, tag='target')
     for b in FX.FILES:
         bits = int.from_bytes(FX.block(b)['header'][72:76], 'little')
-        yield Case(f'target {bits}', 'ms', nontrivial=True, tag='target-fixture')
+        yield Case(f'target {bits}', 'gms', nontrivial=True, tag='target-fixture')
     # length scanner
     for _ in range(ctx.n(200, 8000)):
         tx = G.gen_tx(rng, names, max_in=rng.choice([3, 8, 40]), max_out=rng.choice([3, 8]), big=rng.random() < 0.05)
